@@ -26,6 +26,13 @@ pub enum Handle {
     PipeCapture,
     PipeStreamStdout,
     PipeStreamStdin,
+    /// stream adapters over a command that was also given another piped stream: that
+    /// pipe's parent end lives inside the adapter, out of the caller's reach
+    StreamStdoutWithStdinPipe,
+    StreamStdoutWithStderrPipe,
+    StreamStdinWithStdoutPipe,
+    PipeStreamStdoutWithStdinPipe,
+    PipeStreamStdinWithStdoutPipe,
 }
 
 #[derive(Clone, Copy, Debug, PartialEq, Serialize, Deserialize)]
@@ -56,6 +63,10 @@ pub struct DropCase {
     pub stages: u8,
     pub stage_delay_ms: u8,
     pub exit_code: u8,
+    /// the first read() of the launch - the parent waiting for the exec status of
+    /// the (first) child - is interrupted by a signal handler (EINTR)
+    #[serde(default)]
+    pub interrupt_launch: bool,
 }
 
 #[derive(Debug, Default)]
@@ -118,6 +129,23 @@ fn write_some(w: &mut dyn Write, at: DropPoint) -> usize {
 }
 
 fn run_case(case: DropCase, helper: std::path::PathBuf, markers: std::path::PathBuf) -> Ran {
+    if case.interrupt_launch {
+        ip::counters_reset();
+        ip::FAULT_TID.store(unsafe { libc::syscall(libc::SYS_gettid) } as i32, SeqCst);
+        ip::fault_arm(ip::K_READ, 1, libc::EINTR, false);
+        ip::COUNTING.store(true, SeqCst);
+    }
+    let interrupted = case.interrupt_launch;
+    let ran = run_case_inner(case, helper, markers);
+    if interrupted {
+        ip::COUNTING.store(false, SeqCst);
+        ip::fault_disarm();
+        ip::FAULT_TID.store(0, SeqCst);
+    }
+    ran
+}
+
+fn run_case_inner(case: DropCase, helper: std::path::PathBuf, markers: std::path::PathBuf) -> Ran {
     let mut ran = Ran::default();
     let err = |e: subprocess::PopenError| e.to_string();
     let n = case.stages.clamp(2, 5) as usize;
@@ -200,6 +228,31 @@ fn run_case(case: DropCase, helper: std::path::PathBuf, markers: std::path::Path
                 drop(r);
             }
         },
+        Handle::StreamStdoutWithStdinPipe => match child_cmd(&helper, case.behaviour, 1, case.exit_code).stdin(Redirection::Pipe).stream_stdout() {
+            Err(e) => ran.error = Some(err(e)),
+            Ok(mut r) => {
+                // a child waiting for EOF on its stdin writes nothing: no reading
+                let at = if case.behaviour == Behaviour::ReadToEof { DropPoint::BeforeIo } else { case.drop_at };
+                ran.bytes = read_some(&mut r, at);
+                drop(r);
+            }
+        },
+        Handle::StreamStdoutWithStderrPipe => match child_cmd(&helper, case.behaviour, 2, case.exit_code).stdin(NullFile).stderr(Redirection::Pipe).stream_stdout() {
+            Err(e) => ran.error = Some(err(e)),
+            Ok(mut r) => {
+                // the child writes to stderr only; stdout just reaches EOF when it exits
+                let at = if matches!(case.behaviour, Behaviour::WriteThenExit(n) if n > 60_000) || case.behaviour == Behaviour::Flood { DropPoint::BeforeIo } else { case.drop_at };
+                ran.bytes = read_some(&mut r, at);
+                drop(r);
+            }
+        },
+        Handle::StreamStdinWithStdoutPipe => match child_cmd(&helper, case.behaviour, 1, case.exit_code).stdout(Redirection::Pipe).stream_stdin() {
+            Err(e) => ran.error = Some(err(e)),
+            Ok(mut w) => {
+                ran.bytes = write_some(&mut w, if case.behaviour == Behaviour::ReadToEof { case.drop_at } else { DropPoint::BeforeIo });
+                drop(w);
+            }
+        },
         Handle::StreamStdin => match child_cmd(&helper, case.behaviour, 1, case.exit_code).stdout(NullFile).stream_stdin() {
             Err(e) => ran.error = Some(err(e)),
             Ok(mut w) => {
@@ -207,10 +260,10 @@ fn run_case(case: DropCase, helper: std::path::PathBuf, markers: std::path::Path
                 drop(w);
             }
         },
-        Handle::PipeJoin | Handle::PipeCapture | Handle::PipeStreamStdout | Handle::PipeStreamStdin => {
+        Handle::PipeJoin | Handle::PipeCapture | Handle::PipeStreamStdout | Handle::PipeStreamStdin | Handle::PipeStreamStdoutWithStdinPipe | Handle::PipeStreamStdinWithStdoutPipe => {
             let mut cmds = vec![];
             let first = match case.handle {
-                Handle::PipeStreamStdin => filter_cmd(&helper, 0, case.stage_delay_ms, &markers),
+                Handle::PipeStreamStdin | Handle::PipeStreamStdinWithStdoutPipe | Handle::PipeStreamStdoutWithStdinPipe => filter_cmd(&helper, 0, case.stage_delay_ms, &markers),
                 _ => child_cmd(&helper, case.behaviour, 1, 0),
             };
             cmds.push(first);
@@ -227,6 +280,21 @@ fn run_case(case: DropCase, helper: std::path::PathBuf, markers: std::path::Path
                 Handle::PipeCapture => match p.stdin(NullFile).capture() {
                     Err(e) => ran.error = Some(err(e)),
                     Ok(c) => ran.bytes = c.stdout.len(),
+                },
+                Handle::PipeStreamStdoutWithStdinPipe => match p.stdin(Redirection::Pipe).stream_stdout() {
+                    Err(e) => ran.error = Some(err(e)),
+                    Ok(r) => {
+                        // every stage waits for its input: nothing to read before the drop
+                        drop(r);
+                    }
+                },
+                Handle::PipeStreamStdinWithStdoutPipe => match p.stdout(Redirection::Pipe).stream_stdin() {
+                    Err(e) => ran.error = Some(err(e)),
+                    Ok(mut w) => {
+                        // more than the unread stdout pipe holds once it has passed through the filters
+                        ran.bytes = write_some(&mut w, DropPoint::AfterPartial(60_000));
+                        drop(w);
+                    }
                 },
                 Handle::PipeStreamStdout => match p.stdin(NullFile).stream_stdout() {
                     Err(e) => ran.error = Some(err(e)),
@@ -257,11 +325,20 @@ fn pending_class(case: &DropCase) -> Option<String> {
         (Handle::PopenPlain, Behaviour::Flood, _) => true,
         _ => false,
     };
+    let hidden = match (case.handle, case.behaviour) {
+        (Handle::StreamStdoutWithStdinPipe, Behaviour::ReadToEof) => true,
+        (Handle::StreamStdoutWithStderrPipe | Handle::StreamStdinWithStdoutPipe, Behaviour::WriteThenExit(n)) => n > 0,
+        (Handle::StreamStdoutWithStdinPipe | Handle::StreamStdoutWithStderrPipe | Handle::StreamStdinWithStdoutPipe, Behaviour::Flood) => true,
+        _ => false,
+    };
+    let unread = unread || hidden;
     let unwritten = matches!((case.handle, case.behaviour), (Handle::StreamStdin | Handle::PipeStreamStdin | Handle::PopenPlain, Behaviour::ReadToEof));
+    let hidden_pipeline = matches!(case.handle, Handle::PipeStreamStdoutWithStdinPipe | Handle::PipeStreamStdinWithStdoutPipe);
+    let unread = unread || hidden_pipeline;
     let outlive = matches!(case.handle, Handle::PipeJoin | Handle::PipeCapture | Handle::PipeStreamStdout | Handle::PipeStreamStdin) && case.stage_delay_ms > 0;
     let detached = matches!(case.handle, Handle::PopenDetachedCfg | Handle::PopenDetachCall);
     let err_path = case.handle == Handle::ExecCapture && matches!(case.behaviour, Behaviour::ExitNow | Behaviour::ExitAfter(_));
-    if unread || unwritten || outlive || detached || err_path {
+    if unread || unwritten || outlive || detached || err_path || case.interrupt_launch {
         let b = match case.behaviour {
             Behaviour::ExitNow => "exit".to_string(),
             Behaviour::ExitAfter(_) => "exit-late".to_string(),
@@ -274,7 +351,7 @@ fn pending_class(case: &DropCase) -> Option<String> {
             DropPoint::AfterPartial(_) => "after-partial",
             DropPoint::AfterEof => "after-eof",
         };
-        Some(format!("{:?}|{}|{}|unread{}|unwritten{}|outlive{}|errpath{}", case.handle, b, d, unread as u8, unwritten as u8, outlive as u8, err_path as u8))
+        Some(format!("{:?}|{}|{}|unread{}|unwritten{}|outlive{}|errpath{}|intr{}", case.handle, b, d, unread as u8, unwritten as u8, outlive as u8, err_path as u8, case.interrupt_launch as u8))
     } else {
         None
     }
@@ -309,8 +386,13 @@ pub fn check_case(ctx: &Ctx, case: &DropCase, rep: &mut CaseReport) -> CaseResul
         }
     };
     if let Some(e) = ran.error {
-        reap_all();
-        return fail("unexpected-error", e);
+        if case.interrupt_launch && (e.contains("nterrupted") || e.contains("os error 4")) {
+            // reporting the interruption is fine; what was started must still be reaped
+            rep.count("interrupted_launches_reported_as_error", 1);
+        } else {
+            reap_all();
+            return fail("unexpected-error", e);
+        }
     }
     if ran.broken_pipe {
         rep.count("capture_error_paths", 1);
@@ -346,6 +428,8 @@ pub fn case_strategy() -> impl Strategy<Value = DropCase> {
     let handle = prop_oneof![
         2 => Just(Handle::PopenPlain), 1 => Just(Handle::PopenDetachedCfg), 1 => Just(Handle::PopenDetachCall), 1 => Just(Handle::ExecJoin), 2 => Just(Handle::ExecCapture),
         3 => Just(Handle::StreamStdout), 3 => Just(Handle::StreamStderr), 2 => Just(Handle::StreamStdin),
+        1 => Just(Handle::StreamStdoutWithStdinPipe), 1 => Just(Handle::StreamStdoutWithStderrPipe), 1 => Just(Handle::StreamStdinWithStdoutPipe),
+        1 => Just(Handle::PipeStreamStdoutWithStdinPipe), 1 => Just(Handle::PipeStreamStdinWithStdoutPipe),
         1 => Just(Handle::PipeJoin), 2 => Just(Handle::PipeCapture), 3 => Just(Handle::PipeStreamStdout), 2 => Just(Handle::PipeStreamStdin)
     ];
     let behaviour = prop_oneof![
@@ -356,14 +440,14 @@ pub fn case_strategy() -> impl Strategy<Value = DropCase> {
         2 => Just(Behaviour::Flood),
     ];
     let drop_at = prop_oneof![3 => Just(DropPoint::BeforeIo), 3 => prop_oneof![Just(1u32), 1u32..70000].prop_map(DropPoint::AfterPartial), 2 => Just(DropPoint::AfterEof)];
-    (handle, behaviour, drop_at, 2u8..6, prop_oneof![2 => Just(0u8), 1 => 1u8..40], any::<u8>()).prop_map(|(handle, behaviour, drop_at, stages, stage_delay_ms, exit_code)| {
+    (handle, behaviour, drop_at, 2u8..6, prop_oneof![2 => Just(0u8), 1 => 1u8..40], any::<u8>(), prop_oneof![7 => Just(false), 1 => Just(true)]).prop_map(|(handle, behaviour, drop_at, stages, stage_delay_ms, exit_code, interrupt)| {
         // construction: only behaviours that terminate once the handle's own pipe is released
-        let writes_ok = matches!(handle, Handle::StreamStdout | Handle::StreamStderr | Handle::PipeStreamStdout | Handle::PopenPlain | Handle::ExecCapture | Handle::PipeCapture | Handle::PipeJoin | Handle::ExecJoin);
+        let writes_ok = matches!(handle, Handle::StreamStdout | Handle::StreamStderr | Handle::PipeStreamStdout | Handle::PopenPlain | Handle::ExecCapture | Handle::PipeCapture | Handle::PipeJoin | Handle::ExecJoin | Handle::StreamStdoutWithStdinPipe | Handle::StreamStdoutWithStderrPipe | Handle::StreamStdinWithStdoutPipe);
         let mut behaviour = behaviour;
         let mut drop_at = drop_at;
         match behaviour {
             Behaviour::WriteThenExit(_) if !writes_ok => behaviour = Behaviour::ReadToEof,
-            Behaviour::Flood if !matches!(handle, Handle::StreamStdout | Handle::StreamStderr | Handle::PipeStreamStdout | Handle::PopenPlain) => behaviour = Behaviour::ExitAfter(5),
+            Behaviour::Flood if !matches!(handle, Handle::StreamStdout | Handle::StreamStderr | Handle::PipeStreamStdout | Handle::PopenPlain | Handle::StreamStdoutWithStdinPipe | Handle::StreamStdoutWithStderrPipe | Handle::StreamStdinWithStdoutPipe) => behaviour = Behaviour::ExitAfter(5),
             _ => {}
         }
         if behaviour == Behaviour::ReadToEof && matches!(handle, Handle::PopenDetachedCfg | Handle::PopenDetachCall) {
@@ -375,7 +459,17 @@ pub fn case_strategy() -> impl Strategy<Value = DropCase> {
         if behaviour == Behaviour::ReadToEof && matches!(handle, Handle::StreamStdout | Handle::StreamStderr | Handle::PipeStreamStdout) {
             // stdin is /dev/null there: reads EOF at once
         }
-        DropCase { handle, behaviour, drop_at, stages, stage_delay_ms, exit_code }
+        // an interrupted launch: only children that exit on their own whatever happens to their pipes
+        let interrupt_launch = interrupt && !matches!(handle, Handle::PopenDetachedCfg | Handle::PopenDetachCall);
+        if interrupt_launch {
+            behaviour = match behaviour {
+                Behaviour::ExitNow => Behaviour::ExitNow,
+                Behaviour::ExitAfter(ms) => Behaviour::ExitAfter(ms),
+                _ => Behaviour::ExitAfter(20),
+            };
+            drop_at = DropPoint::BeforeIo;
+        }
+        DropCase { handle, behaviour, drop_at, stages, stage_delay_ms, exit_code, interrupt_launch }
     })
 }
 
